@@ -204,33 +204,58 @@ func Classify(c Case) (bool, []string) {
 // Class predicates of the genuine defects this check found on the repaired tree (reported, not repaired by
 // this package). Exclude is honoured by the kit only while known_findings.json lists the id as "known".
 const (
-	findKindString   = "F18" // format-typed strings whose Go type has kind string (uuid, email, ipv4, password ...) are always rejected
-	findIntArrayDef  = "F19" // array default with an integer item >= 10^6 in magnitude is rendered with an exponent and rejected
-	findDurationZero = "F20" // absent or empty string/duration parameter without default is rejected
-	findByteStd      = "F21" // string/byte literal in the standard base64 alphabet containing '+' or '/' is rejected
-	findFile400      = "F22" // a missing required file parameter is answered 400 (parse error), not 422
+	findKindString      = "F31" // format-typed strings whose Go type has kind string (uuid, email, ipv4, password ...) are always rejected
+	findIntArrayDef     = "F32" // array default with an integer item >= 10^6 in magnitude is rendered with an exponent and rejected
+	findDurationZero    = "F33" // absent or empty string/duration parameter without default is rejected
+	findByteStd         = "F34" // string/byte literal in the standard base64 alphabet containing '+' or '/' is rejected
+	findFile400         = "F35" // a missing required file parameter is answered 400 (parse error), not 422
+	findKindStringItems = "F36" // arrays whose items have such a format: every item rejected; item formats are never validated
 )
 
+// findingClass names a known finding whose class the case belongs to (a case may belong to several).
 func findingClass(c Case) string {
+	ids := findingClasses(c)
+	for _, id := range ids {
+		if kit.IsKnown(id) {
+			return id
+		}
+	}
+	if len(ids) > 0 {
+		return ids[0]
+	}
+	return ""
+}
+
+func findingClasses(c Case) []string {
+	set := map[string]bool{}
+	findingClassesInto(c, set)
+	return sortedKeys(set)
+}
+
+func findingClassesInto(c Case, set map[string]bool) {
 	for i, d := range c.Decls {
 		tpe, format := d.Type, d.Format
 		if d.isArray() {
 			tpe, format = d.ItemType, d.ItemFormat
 		}
 		if kindStringFormat(tpe, format) {
-			return findKindString
+			if d.isArray() {
+				set[findKindStringItems] = true
+			} else {
+				set[findKindString] = true
+			}
 		}
 		if d.Type == "file" && d.Required {
 			for _, r := range c.Reqs {
 				if r.Sent[i].File == nil {
-					return findFile400
+					set[findFile400] = true
 				}
 			}
 		}
 		if d.isArray() && d.ItemType == "integer" && d.Default != "" {
 			for _, it := range strings.Split(strings.Trim(d.Default, "[]"), ",") {
 				if bi, ok := new(big.Int).SetString(strings.TrimSpace(it), 10); ok && new(big.Int).Abs(bi).Cmp(big.NewInt(1000000)) >= 0 {
-					return findIntArrayDef
+					set[findIntArrayDef] = true
 				}
 			}
 		}
@@ -241,14 +266,14 @@ func findingClass(c Case) string {
 					if d.multi() {
 						for _, v := range vals {
 							if v == "" {
-								return findDurationZero
+								set[findDurationZero] = true
 							}
 						}
 					}
 					continue
 				}
 				if last(vals) == "" && d.Default == "" {
-					return findDurationZero
+					set[findDurationZero] = true
 				}
 			}
 		}
@@ -256,16 +281,15 @@ func findingClass(c Case) string {
 			for _, r := range c.Reqs {
 				for _, v := range r.Sent[i].vals() {
 					if strings.ContainsAny(v, "+/") {
-						return findByteStd
+						set[findByteStd] = true
 					}
 				}
 			}
 		}
 	}
-	return ""
 }
 
-// devAssumeKnown (development only, like VERIF_SCALE): VERIF_DEV_ASSUME_KNOWN=F18,F19 makes the generated tier
+// devAssumeKnown (development only, like VERIF_SCALE): VERIF_DEV_ASSUME_KNOWN=F31,F32 makes the generated tier
 // skip the classes of these findings before known_findings.json lists them, so that the rest of the domain
 // can be explored. Registered commands never set it.
 func devAssumeKnown(check func(Case) *kit.Violation) func(Case) *kit.Violation {
@@ -278,8 +302,10 @@ func devAssumeKnown(check func(Case) *kit.Violation) func(Case) *kit.Violation {
 		ids[strings.TrimSpace(id)] = true
 	}
 	return func(c Case) *kit.Violation {
-		if id := findingClass(c); id != "" && ids[id] {
-			return nil
+		for _, id := range findingClasses(c) {
+			if ids[id] {
+				return nil
+			}
 		}
 		return check(c)
 	}
